@@ -85,6 +85,9 @@ def build_spec(desc):
         kw["start_codon"] = list(kw["start_codon"])
     if name in ("AvoidChanges", "EnforceChanges") and kw.get("indices") is not None:
         kw["indices"] = list(kw["indices"])
+    from . import customspecs
+    if name in customspecs.CUSTOM:
+        return customspecs.CUSTOM[name](**kw)
     cls = getattr(dc, name, None) or getattr(dc.builtin_specifications, name)
     return cls(**kw)
 
